@@ -18,3 +18,28 @@ package gtids
 //@ func mysql/gtids.IsSplitBrained
 //@   flags defines
 //@   ensures C04.sb_def [C04,C11]: result == sbText(textOf(slaveGtidSet), masterGtidSet, masterUUID)
+
+// ---- C13: element level - interval subtraction -----------------------------------------------------------------
+// ivHas(s, x): transaction number x lies in one of the half-open intervals [Start, Stop) of s. The two axioms define
+// it (ivWit is the Skolem witness of the existential); they are a conservative definition, not an assumption on code.
+//@ ufunc ivHas(mysql.IntervalSlice, int) bool
+//@ ufunc ivWit(mysql.IntervalSlice, int) int
+//@ axiom ivHas_elim: forall s mysql.IntervalSlice, x int :: {ivHas(s, x)} ivHas(s, x) ==> in_range(ivWit(s, x), s) && s[ivWit(s, x)].Start <= x && x < s[ivWit(s, x)].Stop
+//@ axiom ivHas_intro: forall s mysql.IntervalSlice, x int, k int :: {ivHas(s, x), s[k]} in_range(k, s) && s[k].Start <= x && x < s[k].Stop ==> ivHas(s, x)
+//@ define ivNorm(s mysql.IntervalSlice) = (forall k int :: in_range(k, s) ==> s[k].Start < s[k].Stop) && (forall k int, l int :: 0 <= k && k < l && l < len(s) ==> s[k].Stop <= s[l].Start)
+//@ define inPrefix(a mysql.IntervalSlice, n int, x int) = exists j int :: 0 <= j && j < n && a[j].Start <= x && x < a[j].Stop
+
+//@ func mysql/gtids.intervalSliceMinus
+//@   requires norm [inv]: ivNorm(a) && ivNorm(b)
+//@   ensures C13.minus_def [C13]: forall x int :: {ivHas(result, x)} {ivHas(a, x)} {ivHas(b, x)} ivHas(result, x) <==> ivHas(a, x) && !ivHas(b, x)
+//@   ensures C13.minus_norm [C13]: ivNorm(result)
+//@   loop 1 invariant idx: -1 <= rangeindex && rangeindex < len(a) && 0 <= bi && bi <= len(b)
+//@   loop 1 invariant skipped: forall k int :: 0 <= k && k < bi && rangeindex + 1 < len(a) ==> b[k].Stop <= a[rangeindex + 1].Start
+//@   loop 1 invariant chr: forall x int :: {ivHas(result, x)} {ivHas(b, x)} ivHas(result, x) <==> inPrefix(a, rangeindex + 1, x) && !ivHas(b, x)
+//@   loop 1 invariant norm: ivNorm(result) && (forall k int :: in_range(k, result) && rangeindex >= 0 ==> result[k].Stop <= a[rangeindex].Stop) && (rangeindex < 0 ==> len(result) == 0)
+//@   loop 2 invariant idx: 0 <= rangeindex && rangeindex < len(a) && iv == a[rangeindex] && 0 <= bi && bi <= len(b) && iv.Start <= cur
+//@   loop 2 invariant skipped: forall k int :: 0 <= k && k < bi ==> b[k].Stop <= cur && b[k].Stop < iv.Stop
+//@   loop 2 invariant chr: forall x int :: {ivHas(result, x)} {ivHas(b, x)} ivHas(result, x) <==> (inPrefix(a, rangeindex, x) || (iv.Start <= x && x < cur && x < iv.Stop)) && !ivHas(b, x)
+//@   loop 2 invariant norm: ivNorm(result) && (forall k int :: in_range(k, result) ==> result[k].Stop <= cur && result[k].Stop <= iv.Stop)
+//@   loop 3 invariant idx: 0 <= bi && bi <= len(b)
+//@   loop 3 invariant skipped: forall k int :: 0 <= k && k < bi ==> b[k].Stop <= cur && b[k].Stop < iv.Stop
